@@ -351,7 +351,7 @@ func c08GenStream(r *rand.Rand, kind int) (*c08Stream, error) {
 		rows := 12000 + r.Intn(500)
 		c := new(proto.ColStr)
 		for i := 0; i < rows; i++ {
-			c.Append(fmt.Sprintf("%06d:", i) + strings.Repeat(c08Str(r, 12)+"pad", 20)[:90+r.Intn(8)])
+			c.Append(fmt.Sprintf("%06d:", i) + strings.Repeat(string(rune('a'+r.Intn(26)))+"pad", 30)[:90+r.Intn(8)])
 		}
 		var u proto.ColUInt32
 		for i := 0; i < rows; i++ {
